@@ -14,6 +14,10 @@ Failed(e) ==
          (IF e.ro_added THEN {"C18_NoROInTables"} ELSE {}) \cup (IF e.normal_added THEN {} ELSE {"C18_NormalRequesterLearned"})
     [] e.e = "ro_reply" ->
          IF e.done /\ e.yielded = 0 /\ ~e.ro_responder_in_table /\ ~e.listed_by_ro_in_table THEN {} ELSE {"C18_ROIgnored"}
+    [] e.e = "ro_put_reply" ->
+         \* the write requests went out and every reply to them was flagged read-only: none counts, as an ack or as an error
+         IF e.writes_seen = 0 THEN {}
+         ELSE IF e.done /\ e.result \notin {"ok", "CasFailed", "NotMostRecent", "ErrorResponse:301"} THEN {} ELSE {"C18_ROIgnored"}
     [] e.e = "adaptive" ->
          IF e.variant = "reachable"
          THEN (IF e.self_ping_seen /\ ~e.firewalled /\ e.server_mode /\ e.switch_minute > 0 /\ e.switch_minute <= 17
